@@ -188,14 +188,14 @@ func init() {
 }
 
 func runC15(b *Batch) {
-	n := b.Pick(2000, 100000) / b.NBatches
+	n := b.Pick(8000, 300000) / b.NBatches
 	for i := 0; i < n; i++ {
 		if b.Skip(i) {
 			continue
 		}
 		c15Case(b, i)
 	}
-	nc := b.Pick(64, 2000) / b.NBatches
+	nc := b.Pick(256, 8000) / b.NBatches
 	for i := 0; i < nc; i++ {
 		if b.Skip(n + i) {
 			continue
